@@ -199,13 +199,15 @@ KEY_CODES = {("K", 1): "PKCS#8 bytes written by gopki differ from the model's en
              ("P", 5): "gopki accepts bytes that are not a valid supported key",
              ("M", 1): "PEM block list differs from the model's pem.Decode", ("M", 2): "'undecodable data left' differs from the model",
              ("M", 3): "objects / error reported by cert.ReadPem differ from the model", ("M", 4): "the directory import keeps different objects than the model",
-             ("H", 1): "stored configuration hash read from the artifact file differs from the model", ("H", 2): "opening the directory panicked on this artifact file"}
+             ("H", 1): "stored configuration hash read from the artifact file differs from the model", ("H", 2): "opening the directory panicked on this artifact file",
+             ("N", 1): "C18: file read as a configuration / ignored against the suffix rule", ("N", 2): "C18: alias is neither the explicit alias nor the file's base name",
+             ("N", 3): "C18: the artifact was not written next to its configuration (<config path without extension>.pem)", ("N", 4): "the name derivation would panic"}
 
 def run_keys(kind, tier, seed, C):
     p = subprocess.run([os.path.join(C["VERIF"], "harness", "harness"), kind, tier, str(seed)], capture_output=True, text=True, env=C["ENV"], timeout=7200)
     if p.returncode != 0:
         return {"cases": 0, "nontrivial": 0, "samples": [], "violations": [], "error": "harness %s failed: %s" % (kind, p.stderr[-300:])}
-    descr = {"K": [], "P": [], "M": [], "H": []}; terms = {"K": [], "P": [], "M": [], "H": []}; viol = []; last = None; extra = 0; summary = None
+    descr = {"K": [], "P": [], "M": [], "H": [], "N": []}; terms = {"K": [], "P": [], "M": [], "H": [], "N": []}; viol = []; last = None; extra = 0; summary = None
     for l in p.stdout.split("\n"):
         if l.startswith("CASE "): last = l[5:]
         elif l.startswith("COQ "):
@@ -213,9 +215,9 @@ def run_keys(kind, tier, seed, C):
         elif l.startswith("SELFFAIL "): viol.append({"case": l[9:300], "detail": l[9:], "concrete": True})
         elif l.startswith("SUMMARY "):
             summary = l[8:]; mm = re.search(r"cases=(\d+)", l); extra = int(mm.group(1)) if mm else 0
-    DEF = {"K": ("key_case", "run_keys"), "P": ("parse_case", "run_parses"), "M": ("pem_case", "run_pems"), "H": ("hash_case", "run_hashes")}
+    DEF = {"K": ("key_case", "run_keys"), "P": ("parse_case", "run_parses"), "M": ("pem_case", "run_pems"), "H": ("hash_case", "run_hashes"), "N": ("name_case", "run_names")}
     procs = []
-    for k in "KPMH":
+    for k in "KPMHN":
         if not terms[k]: continue
         nsh = max(1, min(8, len(terms[k]) // 80))
         for sh_i in range(nsh):
@@ -239,12 +241,12 @@ def run_keys(kind, tier, seed, C):
             cs = [int(x) for x in re.findall(r"\d+", codes)]
             i = idx[int(j)]
             viol.append({"case": descr[k][i], "detail": "; ".join(KEY_CODES.get((k, c), str(c)) for c in cs), "codes": cs,
-                         "concrete": (any(c in (2, 5) for c in cs) if k in "KP" else (2 in cs if k == "H" else False)), "coq": terms[k][i][:20000]})
+                         "concrete": (any(c in (2, 5) for c in cs) if k in "KP" else (2 in cs if k == "H" else (k == "N"))), "coq": terms[k][i][:20000]})
         for f in (name + ".vo", name + ".glob", name + ".vok", name + ".vos", "." + name + ".aux"):
             try: os.remove(os.path.join(C["bdir"], f))
             except OSError: pass
     n = sum(len(terms[k]) for k in terms)
-    alld = descr["K"] + descr["P"] + descr["M"] + descr["H"]
+    alld = descr["K"] + descr["P"] + descr["M"] + descr["H"] + descr["N"]
     if extra: n = max(n, extra)
     return {"cases": n, "nontrivial": len(set(sum(terms.values(), []))), "summary": summary, "samples": alld[1:len(alld):max(1, len(alld) // 3)][:3], "violations": viol, "error": err,
             "kinds": {k: len(terms[k]) for k in terms}}
@@ -300,7 +302,7 @@ def run_hview(kind, tier, seed, C):
 def run_stream(st, prop, tier, seed, C):
     if st in PIPE: return run_pipe(PIPE[st], tier, seed, C)
     if st == "hview": return run_hview(st, tier, seed, C)
-    if st in ("pkcs8", "pem", "hostile-files"): return run_keys(st, tier, seed, C)
+    if st in ("pkcs8", "pem", "hostile-files", "names"): return run_keys(st, tier, seed, C)
     if st in ("dirrun", "dirfault", "cli"): return run_dir(st, tier, seed, C)
     if st.startswith("cert-"):
         tz = None
